@@ -2,6 +2,7 @@ package main
 
 import (
 	"fmt"
+	"os"
 	"go/token"
 	"sort"
 	"go/types"
@@ -12,15 +13,14 @@ import (
 // concretizeOperand forks on the value of a symbolic integer operand (held in register v of the
 // top frame) over [lo,hi]; each child re-executes the current instruction with the operand
 // concrete. Values outside the range take the oob continuation.
-func (e *Engine) concretizeOperand(st *State, v ssa.Value, t *Term, lo, hi int, oob func(s *State)) {
+// candidateValues lists the values of t in [lo,hi] that have to be considered: all of a narrow
+// range, or - for a wide range - the feasible ones as enumerated by the solver (complete, or the
+// path ends unsupported).
+func (e *Engine) candidateValues(st *State, t *Term, lo, hi int) []int {
 	c := e.ctx
 	var cand []int
 	if hi-lo+1 > 40 {
-		// wide range: let the solver enumerate the feasible values (complete or unsupported)
 		rng := c.And(c.Cmp(OpSle, c.BV(t.w, uint64(lo)), t), c.Cmp(OpSle, t, c.BV(t.w, uint64(hi))))
-		if didx := len(st.decisions); didx < len(e.forced) {
-			// replaying a recorded prefix: values were enumerated when the prefix was recorded
-		}
 		e.solver.SyncTo(st.pcList())
 		excl := rng
 		complete := false
@@ -51,6 +51,26 @@ func (e *Engine) concretizeOperand(st *State, v ssa.Value, t *Term, lo, hi int, 
 			cand = append(cand, i)
 		}
 	}
+	return cand
+}
+
+// forkOnTerm continues with every feasible concrete value k of t in [lo,hi] (cont runs on the
+// child state with t == k on its path); values outside take oob.
+func (e *Engine) forkOnTerm(st *State, t *Term, lo, hi int, cont func(s *State, k int), oob func(s *State)) {
+	c := e.ctx
+	var alts []Alt
+	for _, i := range e.candidateValues(st, t, lo, hi) {
+		k := i
+		alts = append(alts, Alt{c.Eq(t, c.BV(t.w, uint64(k))), func(s *State) { cont(s, k) }})
+	}
+	oobCond := c.Or(c.Cmp(OpSlt, t, c.BV(t.w, uint64(lo))), c.Cmp(OpSlt, c.BV(t.w, uint64(hi)), t))
+	alts = append(alts, Alt{oobCond, oob})
+	e.fork(st, alts)
+}
+
+func (e *Engine) concretizeOperand(st *State, v ssa.Value, t *Term, lo, hi int, oob func(s *State)) {
+	c := e.ctx
+	cand := e.candidateValues(st, t, lo, hi)
 	var alts []Alt
 	inRange := c.False
 	for _, i := range cand {
@@ -403,11 +423,16 @@ func (e *Engine) execMakeSlice(st *State, f *Frame, ins *ssa.MakeSlice) {
 	lt := e.get(st, f, ins.Len).(*Term)
 	ct := e.get(st, f, ins.Cap).(*Term)
 	if !lt.IsConst() {
-		e.concretizeOperand(st, ins.Len, lt, 0, 64, func(s *State) { e.unsupportedIn(s, "symbolic make length out of 0..64") })
+		e.concretizeOperand(st, ins.Len, lt, 0, 1<<20, func(s *State) {
+			if os.Getenv("SYMGO_DEBUG") != "" {
+				fmt.Fprintf(os.Stderr, "make length term: %s\n", lt.SMT())
+			}
+			e.unsupportedIn(s, "symbolic make length out of 0..1Mi")
+		})
 		return
 	}
 	if !ct.IsConst() {
-		e.concretizeOperand(st, ins.Cap, ct, 0, 64, func(s *State) { e.unsupportedIn(s, "symbolic make cap out of 0..64") })
+		e.concretizeOperand(st, ins.Cap, ct, 0, 1<<20, func(s *State) { e.unsupportedIn(s, "symbolic make cap out of 0..1Mi") })
 		return
 	}
 	n, cp := int(lt.Signed()), int(ct.Signed())
